@@ -190,6 +190,13 @@ def run(c, facts, tier):
                 c.ob("C04.taint", s.where, "hole %s in a string literal" % hk, False, "the text is escaped by %s for the `%s` context but the literal is read in the `%s` context: %s" % (callee, good_full[callee][0], want_ctx, "a `~` of the user's text stays a directive" if want_ctx == "template" else "the decoded value is not the user's string (every `~` is doubled)"), witness="-printf '~50%% done\\n'" if want_ctx == "string" else "-name 'a~b'")
                 continue
             if callee in good_sani and dangerous <= good_sani[callee]:
+                # escaped exactly once: an argument that is itself already escaped text decodes to the escaped form, not to
+                # the user's string
+                inner_ = [a_ for a_ in (h.get("args") or []) if isinstance(a_, dict)]
+                twice = [a_ for a_ in inner_ if (a_.get("kind") == "call" and a_.get("callee") in good_sani) or (emit.is_str(a_) and any(p_[0] == "h" and isinstance(p_[1], dict) and p_[1].get("kind") == "call" and p_[1].get("callee") in good_sani for p_ in a_["parts"]))]
+                if twice:
+                    c.ob("C04.taint", s.where, "hole %s in a string literal" % hk, False, "the text is escaped twice (%s applied to text already escaped by %s): the literal decodes to the escaped form of the user's string, not to the string" % (callee, twice[0].get("callee") or "a sanitiser"), witness="-name 'a\"b'")
+                    continue
                 spec_ = h.get("spec") or ""
                 if "." in spec_:
                     c.ob("C04.taint", s.where, "hole %s in a string literal" % hk, False, "the text escaped by %s is then truncated by the precision in `{:%s}`: the cut can fall between a backslash and the character it escapes, and the decoded value is no longer the user's string" % (callee, spec_), witness="-pool 'aaaaaaaaaaaaaa\"'")
